@@ -6,6 +6,7 @@ LLVM dialect by a small per-ISA normaliser, assembled with `llvm-mc -show-encodi
 ISA) and compared with ins.encode().  Lines llvm-mc rejects, encodings with fixups, and classes in
 EXCLUDE are skipped and counted, never reported.
 """
+import os
 import re
 import subprocess
 from props import c08_trace as T
@@ -26,7 +27,10 @@ TARGETS = {
 }
 
 # (arch, class name) -> reason: dialect / semantic differences triaged on the unchanged tree; not compared
-EXCLUDE = {}
+EXCLUDE = {
+    ('msp430', 'Call'): 'call #N: ppci uses the constant generator (call r3/As) for small N, llvm-mc the immediate form; '
+                        'both are valid encodings, llvm disassembles them differently',
+}
 
 DATA_CLASSES = ('Db', 'Dw', 'Dw2', 'Dd', 'Dq', 'Dq2', 'Ds', 'DZero', 'Dcd2', 'DByte', 'Dcd')
 
@@ -75,6 +79,8 @@ def n_thumb(s, ins):
     # ppci's thumb dialect is pre-UAL: the 16-bit ALU forms set the flags (UAL: adds/movs/...)
     head, _, rest = s.partition(' ')
     if head in THUMB_S and not re.search(r'\b(sp|pc|SP|PC|R8|R9|R1[0-5]|LR)\b', rest):
+        if head == 'mov' and re.search(r',\s*[Rr]\d+\s*$', rest):
+            return s
         if head == 'neg':
             return 'rsbs %s, #0' % rest
         if head == 'rsb':
@@ -152,9 +158,12 @@ def instances(rng, cls, n_tuples, max_variants):
             for j, leaf in enumerate(lv):
                 if leaf['kind'] == 'reg':
                     nums = leaf['nums']
-                    vals.append(nums[0] if k == 0 else nums[-1] if k == 1 else rng.choice(nums))
+                    if k % 3 == 2:      # the same register (position) in every register operand
+                        vals.append(nums[(k // 3) % len(nums)])
+                    else:
+                        vals.append(nums[0] if k == 0 else nums[-1] if k == 1 else rng.choice(nums))
                 elif leaf['kind'] == 'imm':
-                    vals.append(INT_POOL[(k * 7 + j * 13) % len(INT_POOL)] if k < len(INT_POOL) else rng.choice(INT_POOL))
+                    vals.append(INT_POOL[(k + j * 13) % len(INT_POOL)] if k < len(INT_POOL) else rng.choice(INT_POOL))
                 else:
                     vals.append(0)
             try:
@@ -212,43 +221,49 @@ def run_llvm(args, prologue, lines, timeout=300):
 DISASM_ARGS = {'x86_64': ['--output-asm-variant=1']}
 
 
-def _disasm_stream(args, extra, blobs):
-    """one llvm-mc --disassemble run over the concatenation; -> list of texts, or None when the output cannot be
-    cut back exactly at the item boundaries (invalid encodings, instructions spanning two items)"""
+def _disasm_run(args, extra, blobs):
     inp = '\n'.join(' '.join('0x%02x' % x for x in b) for b in blobs) + '\n'
+    env = dict(os.environ, LLVM_DISABLE_SYMBOLIZATION='1', LLVM_DISABLE_CRASH_REPORT='1')
     p = subprocess.run(['timeout', '120', LLVM_MC, '--disassemble', '-show-encoding'] + args + extra, input=inp,
-                       stdout=subprocess.PIPE, stderr=subprocess.PIPE, text=True)
-    if 'warning' in p.stderr or 'error' in p.stderr or p.returncode != 0:
-        return None
+                       stdout=subprocess.PIPE, stderr=subprocess.PIPE, text=True, env=env)
+    badlines = sorted({int(m.group(1)) - 1 for m in re.finditer(r'<stdin>:(\d+):\d+: (?:warning|error)', p.stderr)})
     items = []
     for l in p.stdout.splitlines():
         m = re.search(r'^(.*?)\s*[#@;/|]+\s*encoding: \[(.*)\]', l)
         if m:
             items.append(re.sub(r'\s+', ' ', m.group(1).strip()))
-    # (the printed encodings drop redundant prefixes, so lengths cannot be used to cut the stream)
-    if len(blobs) == 1:
-        return [' ; '.join(items)] if items else None
-    if len(items) != len(blobs):
-        return None
-    return items
+    return items, badlines, p.returncode
 
 
-def disasm_many(args, extra, blobs, chunk=64):
-    """-> {bytes: llvm disassembly text | None}; batches, falling back to halving on chunks that do not cut cleanly"""
+def disasm_many(args, extra, blobs, chunk=400):
+    """-> {bytes: llvm disassembly text | None}.  Batched: items llvm reports as invalid are dropped and the batch is
+    re-run; a batch whose instruction count differs from its item count (an item decoding to several instructions; the
+    printed encodings drop redundant prefixes, so lengths cannot be used to cut the stream) is halved."""
     out = {}
-    todo = sorted(set(blobs))
+    todo = sorted(set(b for b in blobs if b))
 
-    def go(lst):
+    def go(lst, depth=0):
+        while lst:
+            items, bad, rc = _disasm_run(args, extra, lst)
+            bad = [k for k in bad if 0 <= k < len(lst)]
+            if not bad:
+                break
+            for k in bad:
+                out[lst[k]] = None
+            keep = set(range(len(lst))) - set(bad)
+            lst = [x for k, x in enumerate(lst) if k in keep]
         if not lst:
             return
-        r = _disasm_stream(args, extra, lst)
-        if r is not None:
-            out.update(zip(lst, r))
-        elif len(lst) == 1:
-            out[lst[0]] = None
+        if len(lst) == 1:
+            out[lst[0]] = ' ; '.join(items) if items else None
+        elif len(items) == len(lst):
+            out.update(zip(lst, items))
+        elif depth > 12:
+            for x in lst:
+                out[x] = None
         else:
-            go(lst[:len(lst) // 2])
-            go(lst[len(lst) // 2:])
+            go(lst[:len(lst) // 2], depth + 1)
+            go(lst[len(lst) // 2:], depth + 1)
     for i in range(0, len(todo), chunk):
         go(todo[i:i + chunk])
     return out
@@ -276,11 +291,29 @@ def same_ints(src_text, dis_text):
     return all(v in ext for v in ints_of(src_text))
 
 
+def issue_class(key, cn, text, ref, bs):
+    """systematic families are reported under one class name (one known-finding entry each)"""
+    if key == 'x86_64' and re.search(r'\b[abcd]h\b', text):
+        return '*high-byte-register*'
+    if key == 'm68k' and cn.endswith('l') and len(ref) == len(bs) + 2:
+        return '*long-immediate-16bit*'
+    return cn
+
+
+def benign(key, cn, text, ref, bs):
+    """differences that are not encoding defects"""
+    if key == 'm68k' and cn.endswith('b') and len(ref) == len(bs) == 4 and ref[:2] == bs[:2] and ref[3] == bs[3]:
+        return 'byte immediate: the upper byte of the extension word is ignored by the CPU'
+    return None
+
+
 def canon(key, text):
     """alternative encodings of the same instruction disassemble to the same text (up to these aliases)"""
     t = text.lower()
     if key == 'x86_64':
         t = t.replace('movabs', 'mov')
+    if key == 'msp430':     # 16-bit machine: #-1 and #65535 are the same immediate
+        t = re.sub(r'-?\d+', lambda m: str(int(m.group(0)) % 65536), t)
     return t
 
 
@@ -314,7 +347,7 @@ def oracle(ctx, quick, classes_per_isa=None):
         for c in classes:
             st['classes'] += 1
             try:
-                gen = list(instances(ctx.rng, c, 24 if quick else 90, 4 if quick else 12))
+                gen = list(instances(ctx.rng, c, len(INT_POOL) if quick else 3 * len(INT_POOL), 3 if quick else 12))
             except Exception:   # noqa: BLE001
                 st['untranslatable'] += 1
                 continue
@@ -344,16 +377,26 @@ def oracle(ctx, quick, classes_per_isa=None):
                 st['agree'] += 1
             else:
                 cand.append((cn, path, vals, printed, text, bs, ref))
-        dis = disasm_many(args, DISASM_ARGS.get(key, []), [c[5] for c in cand] + [c[6] for c in cand]) if cand else {}
+        dis = disasm_many(args, DISASM_ARGS.get(key, []), [c[6] for c in cand]) if cand else {}
+        live = [c for c in cand if dis.get(c[6]) is not None and same_ints(c[4].split('\n')[-1], dis[c[6]])]
+        if live:
+            dis.update(disasm_many(args, DISASM_ARGS.get(key, []), [c[5] for c in live if c[5] not in dis]))
         for (cn, path, vals, printed, text, bs, ref) in cand:
             d_ppci, d_ref = dis.get(bs), dis.get(ref)
             src = text.split('\n')[-1]
             if d_ref is None or not same_ints(src, d_ref):
                 st['llvm_reinterprets_operand'] = st.get('llvm_reinterprets_operand', 0) + 1
                 continue
+            if ' ; ' in d_ref:
+                st['llvm_macro_expansion'] = st.get('llvm_macro_expansion', 0) + 1
+                continue
             if d_ppci is not None and canon(key, d_ppci) == canon(key, d_ref):
                 st['equivalent_encoding'] = st.get('equivalent_encoding', 0) + 1
                 continue
+            if benign(key, cn, src, ref, bs):
+                st['benign_difference'] = st.get('benign_difference', 0) + 1
+                continue
+            cn = issue_class(key, cn, src, ref, bs)
             badcls.add(cn)
             mismatches.append(dict(arch=key, cls=cn, variant=path, args=vals, printed=printed, llvm_input=src,
                                    expected=ref.hex(), actual=bs.hex(), llvm_reads_ppci_bytes_as=d_ppci,
